@@ -112,7 +112,7 @@ PROPS['C09'] = {
     'level': 'proof', 'verus': ['core_step', 'bus', 'timer'], 'trusted_base': _CORE_TB, 'design_ref': 'DESIGN.md 5.9',
     'technique': 'Verus contracts: get_consumed_cycles, to_clock_cycles, run_interp, update, MemoryAreas::run_clock_cycles, IO::run_clock_cycles, Timer::run_cycles (devices advance by exactly 4 x consumed)',
     'level_text': 'Per step (instruction-stepped build): the devices receive catchup_post(mem, 4 * cycles) where cycles = the instruction\'s machine cycles (>= 1) plus the 5 pending from a previous dispatch; the timer view advances by exactly that many clocks (run), the LCD by video_after of the same count, DMA by count/4 bytes; catch-up happens before interrupts are sampled; a dispatch leaves exactly 5 cycles pending; a halted step delivers 4 clocks.',
-    'level_note': 'Not covered: the block-stepped (jit) accounting in Core::run_code_block (C04 / known limitation) and termination of Core::run_frame within two frame periods (needs the LCD schedule as a variant; not attempted).',
+    'level_note': 'Core::run_frame (instruction-stepped build) is proved to terminate: every update() advances the LCD position by k machine cycles with 1 <= k <= 14, so the clocks-to-VBlank / clocks-to-end-of-VBlank variants strictly decrease (one assume(): the guest keeps PC inside executable memory). The explicit bound "two frame periods plus one block" and the block-stepped (jit) accounting are not proved (jit: only through C04\'s relation).',
     'assumptions': ['one catch-up batch <= 0xffff0000 clocks'],
 }
 
